@@ -56,8 +56,13 @@ def build(doc, api_inline=False, note_objects=False, **dbkw):
             db.add(Reference(r.kind, t1[col.name], t2[r.col], inline=True))
         else:
             t1, t2 = tables[r.t1], tables[r.t2]
-            db.add(Reference(r.kind, [t1[c] for c in r.cols1], [t2[c] for c in r.cols2], name=r.name,
+            l1, l2 = [t1[c] for c in r.cols1], [t2[c] for c in r.cols2]
+            db.add(Reference(r.kind, l1, l2, name=r.name,
                              comment=r.comment, on_update=r.on_update, on_delete=r.on_delete, inline=bool(api_inline and r.api_inline)))
+            # the caller's own lists are used for something else afterwards: the reference keeps what it was given
+            l1.reverse()
+            l1.append(t2[r.cols2[0]])
+            l2.clear()
     for kind, idx in order:
         if kind == 'g':
             g = doc.groups[idx]
